@@ -46,7 +46,8 @@ package headers
 //@   call ReadString#1 assert [C14] $0 == reader && $1 == 10
 //@   call WriteString#1 assert [C14] $1 == line
 //@   check [C14] result1 != nil ==> result0 == nil
-//@   check [C14] result1 == nil ==> callres("ReadString", 1).1 == nil && ncalls("Trim") >= 1 && callarg("Trim", 1, 0) == callres("ReadString", 1).0 && callarg("Trim", 1, 1) == " " && callres("Trim", 1) == "\n"
+//@   check [C14] result1 == nil ==> happened("ReadString", 1) && happened("Trim", 1)
+//@   check [C14] happened("ReadString", 1) && happened("Trim", 1) ==> (result1 == nil ==> callres("ReadString", 1).1 == nil && callarg("Trim", 1, 0) == callres("ReadString", 1).0 && callarg("Trim", 1, 1) == " " && callres("Trim", 1) == "\n")
 //@   check [C14] result1 == nil ==> result0 != nil && ncalls("ReadString") == ncalls("WriteString") + 1 && ncalls("Unmarshal") == 1 && ncalls("toInt") == 5 && ncalls("toStr") == 3
 //@   check [C14] ncalls("Unmarshal") <= 1 && (ncalls("Unmarshal") == 1 ==> ncalls("Bytes") == 1 && callarg("Unmarshal", 1, 0) == callres("Bytes", 1) && ncalls("ReadString") == ncalls("WriteString") + 1)
 //@   check [C14] ncalls("toInt") == 5 && ncalls("toStr") == 3 ==> result0.resX == callres("toInt", 1) && callarg("toInt", 1, 0) == mapget(h, XResolution) && result0.resY == callres("toInt", 2) && callarg("toInt", 2, 0) == mapget(h, YResolution)
